@@ -73,10 +73,11 @@ static void case_random(const Args &a, long idx, bool wantDesc, CaseResult &res)
     if (R.coin(0.2)) opts.preferConvexTrees = false;
     if (R.coin(0.2)) opts.preferredTreeGrowthDir = (CardinalDir)R.ri(0, 3);
     if (R.coin(0.2)) opts.putUlcAtOrigin = false;
+    if (R.coin(0.35)) opts.defaultTreeGrowthDir = (CardinalDir)R.ri(0, 3);   // used when the whole graph is a tree
     // drawn last so that the cases generated before this option was varied keep their other settings
     if (R.coin(0.3)) opts.peeledTreeRouting = R.coin() ? TreeRoutingType::STRICT : TreeRoutingType::MONOTONIC;
     if (R.coin(0.2)) opts.wholeTreeRouting = R.coin() ? TreeRoutingType::STRICT : TreeRoutingType::CORE_ATTACHMENT;
-    std::string desc = JObj().str("kind", kind).raw("nodes_cx_cy_w_h", nj.done()).raw("edges", ej.done()).i("peeledTreeRouting", (int)opts.peeledTreeRouting).i("wholeTreeRouting", (int)opts.wholeTreeRouting).b("useACAforLinks", opts.useACAforLinks).b("do_near_align", opts.do_near_align).i("preferredAspectRatio", (int)opts.preferredAspectRatio).num("nodePaddingScalar", opts.nodePaddingScalar).done();
+    std::string desc = JObj().str("kind", kind).raw("nodes_cx_cy_w_h", nj.done()).raw("edges", ej.done()).i("defaultTreeGrowthDir", (int)opts.defaultTreeGrowthDir).i("peeledTreeRouting", (int)opts.peeledTreeRouting).i("wholeTreeRouting", (int)opts.wholeTreeRouting).b("useACAforLinks", opts.useACAforLinks).b("do_near_align", opts.do_near_align).i("preferredAspectRatio", (int)opts.preferredAspectRatio).num("nodePaddingScalar", opts.nodePaddingScalar).done();
     Digest D; D.s(desc); res.digest = D.h; res.gen = kind; if (wantDesc) res.desc = desc;
     if (a.pl("describe_only", 0)) { res.inconclusive = "describe-only"; return; }   // (for writing up a case that hangs)
     // non-trivial: has a core and at least one peeled tree, i.e. some leaf and some cycle
@@ -89,6 +90,10 @@ static void case_random(const Args &a, long idx, bool wantDesc, CaseResult &res)
     set_stage("oracle");
     g_wholeTree = (int)E.size() == n - 1;
     judge_hola(G, ns, dims, eb, desc, res);
+    if (g_wholeTree) { static const char *dn[] = {"EAST", "SOUTH", "WEST", "NORTH"}; std::string d = dn[(int)opts.defaultTreeGrowthDir & 3]; res.count("whole_tree_cases.growing_" + d);
+        // one verdict per case (the first unsatisfied constraint), tagged with the growth direction
+        bool any = false; std::vector<Finding> keep; for (auto &f : res.findings) { if (f.key.find("returned-separation-constraint-not-satisfied[whole-graph-is-a-tree]") == 0) { if (any) continue; f.key = "returned-separation-constraint-not-satisfied[whole-graph-is-a-tree,growing-" + d + "]"; any = true; } keep.push_back(f); } res.findings = keep;
+        if (any) res.count("whole_tree_cases_with_unsatisfied_constraints.growing_" + d); }
     if (res.obs.count("graphs_with_bent_edges")) res.nontrivial = true;
 }
 
